@@ -191,6 +191,48 @@ MUTANTS = [
         "            name=self.gene_symbol or self.locus_tag,\n            parent=None,\n",
         "gene rows get Name=<locus tag> when the gene has no symbol",
     ),
+    (
+        "c12_writer_part_order_reverted", "C12", G + "io/genbank/writer.py",
+        "    if strand == Strand.MINUS and isinstance(location, CompoundLocation):\n        return CompoundLocation(location.parts[::-1], location.operator)\n    return location\n",
+        "    return location\n",
+        "reverts fix 86aec93: minus-strand multi-block parts in non-INSDC order",
+    ),
+    (
+        "c12_codon_start_from_last_block", "C12", G + "io/genbank/writer.py",
+        "    start_frame = next(transcript.cds._frame_iter())\n",
+        "    start_frame = transcript.cds.chunk_relative_frames[0]\n",
+        "codon_start taken from the lowest-coordinate block (wrong on minus-strand multi-block CDS)",
+    ),
+    (
+        "c12_gene_strand_dropped", "C12", G + "io/genbank/writer.py",
+        "    feature = SeqFeature(location, type=feature_type, strand=strand.value)\n    feature.qualifiers = qualifiers\n",
+        "    feature = SeqFeature(location, type=feature_type)\n    feature.qualifiers = qualifiers\n",
+        "gene records always written on the plus strand",
+    ),
+    (
+        "c12_translation_table_swapped", "C12", G + "io/genbank/writer.py",
+        "        TranslationTable.PROKARYOTE if genbank_type == GenbankFlavor.PROKARYOTIC else TranslationTable.DEFAULT\n",
+        "        TranslationTable.DEFAULT if genbank_type == GenbankFlavor.PROKARYOTIC else TranslationTable.PROKARYOTE\n",
+        "translation tables of the two flavours swapped (alternative start codons translated differently)",
+    ),
+    (
+        "c12_parser_cds_frames_plus_only", "C12", G + "io/genbank/parser.py",
+        "        frames = CDSInterval.construct_frames_from_location(cds_interval, frame)\n",
+        "        frames = CDSInterval.construct_frames_from_location(cds_interval.reset_strand(Strand.PLUS), frame)\n",
+        "parser derives frames as if every CDS were on the plus strand",
+    ),
+    (
+        "c12_locus_tag_parser_drops_protein_id", "C12", G + "io/genbank/parser.py",
+        "        for locus_tag, gene_features in itertools.groupby(\n            features,\n            key=lambda f: f.qualifiers[KnownQualifiers.LOCUS_TAG.value][0],\n        ):\n            gene_feature = None\n            transcript_features = []\n            cds_features = []\n            for feature in gene_features:\n",
+        "        for locus_tag, gene_features in itertools.groupby(\n            features,\n            key=lambda f: f.qualifiers[KnownQualifiers.LOCUS_TAG.value][0],\n        ):\n            gene_feature = None\n            transcript_features = []\n            cds_features = []\n            for feature in gene_features:\n                feature.qualifiers.pop(\"protein_id\", None)\n",
+        "locus-tag grouping loses protein ids (modes disagree)",
+    ),
+    (
+        "c12_writer_swallows_oserror", "C12", G + "io/genbank/writer.py",
+        "    SeqIO.write(seqrecords, genbank_file_handle_or_path, format=\"genbank\")\n",
+        "    try:\n        SeqIO.write(seqrecords, genbank_file_handle_or_path, format=\"genbank\")\n    except OSError:\n        warnings.warn(\"GenBank export incomplete\")\n",
+        "writer swallows a write error",
+    ),
 ]
 
 # helper text appended for the mutant above (kept separate to keep the table readable)
